@@ -69,6 +69,7 @@ class Ctx:
         self.known = load_known_findings(prop)
         self.replay_mode = replay_mode
         self.quick = tier == "quick"
+        self.skip_eval = bool(os.environ.get("VERIF_DEV_NO_EVAL"))   # developer switch only
 
     # ----- counting ---------------------------------------------------------------
     def count(self, family, key=None, nontrivial=True, sample=None):
